@@ -467,6 +467,12 @@ func mRangeValues() []*mvalue {
 // mNear: some class names the cell as one around its cause (the large neighbourhood of
 // defined-interface-type-methods-ignored is sampled one in three).
 func mNear(c *mcell, k int) bool {
+	// the neighbourhoods of CLOSED classes stay in the quick tier (no prediction goes with them:
+	// whatever fails there is a failing input), so that a cured defect that returns is seen at once.
+	// variadic-argument-conversion-to-function-type-panics (cured by /repo 7757bd0):
+	if (c.ctx == "variadic" || c.ctx == "arg") && c.v.cat == "conv" {
+		return true
+	}
 	for i, cl := range mClasses {
 		if cl.near(c) && (i != 0 || k%3 == 0) {
 			return true
@@ -788,8 +794,7 @@ func predictDefinedInterface(c *mcell, o typesOutcome) string {
 	comparable := func(t *mtype) bool { return t.cls != "func" && t.cls != "slice" && t.cls != "map" }
 	switch {
 	case c.t.src == "MyErr" && c.v.typ != nil && !valueIsMyErr && !mScriggoType(c.v.typ) && !o.OK && len(o.Classes) == 1 && mAssignLike(c.ctx):
-		if c.ctx == "conversion" && c.v.cat == "tconst" || isCmp && !comparable(c.v.typ) ||
-			c.ctx == "variadic" && c.v.cat == "conv" && c.v.typ.cls == "func" {
+		if c.ctx == "conversion" && c.v.cat == "tconst" || isCmp && !comparable(c.v.typ) {
 			return "" // constants are converted by another branch; operands that cannot be compared at all
 		}
 		return mAccepts
@@ -868,17 +873,9 @@ func init() {
 			}},
 		// x OP y with both operands of the same struct type: the operator table is indexed by
 		// reflect.Kind and ends before reflect.Struct
-		// f(T(x)) with f variadic, T(x) its only variadic argument and T a function type: the
-		// conversion is taken for a call whose results are spread over the parameters
-		{"variadic-argument-conversion-to-function-type-panics", func(c *mcell, o typesOutcome) string {
-			isConv := c.v.cat == "conv" || c.v.wrap == "conversion"
-			// (… or that the checker accepts because of defined-interface-type-methods-ignored)
-			if c.ctx == "variadic" && isConv && c.v.typ != nil && c.v.typ.cls == "func" && (o.OK || c.t.src == "MyErr" && !mScriggoType(c.v.typ)) {
-				return mPanics
-			}
-			return ""
-		}, [3]string{"variadic", "func()", "(func())(" + mVarOf(mT("func()")).src + ")"},
-			func(c *mcell) bool { return (c.ctx == "variadic" || c.ctx == "arg") && c.v.cat == "conv" }},
+		// (the class variadic-argument-conversion-to-function-type-panics — f(T(x)) with f variadic,
+		// T(x) its only variadic argument and T a function type — is closed: cured by /repo 7757bd0;
+		// the cells it covered are ordinary cells again, a panic there is a failing input)
 		{"arithmetic-on-struct-operands-panics", func(c *mcell, o typesOutcome) string {
 			if mStructArith(c) {
 				return mPanics
